@@ -1101,8 +1101,24 @@ def c10_families(tier, seed, ids=None):
                      "zip": [fr(["i", "w"], [call("fromto", I(0), I(3)), call("elems", lst([I(4), I(5), I(6)]))], assign("s", bin_("+", N("i"), N("w"))))]}[later]
             body = [assign("k", call("cpick", v1)), assign("ra", call("k"))] + after + [assign("rb", call("k"))] + after + [lst([N("ra"), N("rb"), call("k")])]
             cg.append(mk(ids, [gen, pick, assign("cmain", fn([], block(body))), call("cmain"), call("cmain"), block(body)], {"ops": ["capture", "reuse"], "captured": [strs, later]}))
+    # values that came from read(): held in a variable, as a slice, in an array and in a closure while many more lines are read
+    # (enough input to go through any buffer: 8 KiB and, thorough, 70 KiB)
+    rd = []
+    for nlines, width in ((6, 10), (130, 64)) + (() if tier == "quick" else ((1100, 64), (40, 5000))):
+        lines = [("line-%04d-" % i + "x" * width)[:width - 1] + "\n" for i in range(nlines + 4)]
+        for where in ("top", "fn"):
+            take = [assign("first", call("read")), assign("head", ix2(N("first"), I(0), I(9))), assign("kept", lst([N("first"), N("head")])), assign("kc", call("mkcl", N("first"))),
+                    assign("second", call("read")), assign("both", bin_("+", N("first"), N("second")))]
+            more = [assign("other", St("")), fr(["i"], [call("fromto", I(0), I(nlines))], assign("other", call("read")))]
+            probe3 = lst([N("first"), N("head"), N("kept"), call("kc"), N("second"), N("both"), ix2(N("other"), I(0), I(9))])
+            if where == "top":
+                items = [assign("mkcl", fn(["a"], fn([], N("a"))))] + take + [probe3] + more + [probe3]
+            else:
+                items = [assign("mkcl", fn(["a"], fn([], N("a")))), assign("run", fn([], block(take + more + [probe3]))), call("run"), call("read")]
+            rd.append(mk(ids, items, {"ops": ["read", "read"], "reads": [nlines, width, where]}, stdin=lines))
     return [("operation histories over values that share structure", ss, ("value",)), ("a grown value extended twice", fk, ("value",)),
-            ("a value captured by a closure that left its generator, across later loops of the same statement", cg, ("value",))]
+            ("a value captured by a closure that left its generator, across later loops of the same statement", cg, ("value",)),
+            ("values returned by read() while more input is read", rd, ("value",))]
 
 
 def c10_nontrivial(v):
